@@ -60,12 +60,13 @@ class Col(Obj):
 
 
 class Query(Obj):
-    def __init__(self, conds=()):
+    def __init__(self, conds=(), rows=()):
         super().__init__("Query", {})
         self.conds = tuple(conds)
-        self.attrs["@filter"] = lambda s, *c: Query(s.conds + tuple(c))
-        self.attrs["@all"] = lambda s: Result(s.conds)
-        self.attrs["@first"] = lambda s: None
+        self.rows = tuple(rows)
+        self.attrs["@filter"] = lambda s, *c: Query(s.conds + tuple(c), s.rows)
+        self.attrs["@all"] = lambda s: Result(s.conds, s.rows)
+        self.attrs["@first"] = lambda s: s.rows[0] if s.rows else None
 
     def __bool__(self):  # `if not query:` - a Query object is truthy
         return True
@@ -74,8 +75,8 @@ class Query(Obj):
 class Result(list):
     """what query.all() returns: no rows (the database is empty), the conditions remembered"""
 
-    def __init__(self, conds):
-        super().__init__()
+    def __init__(self, conds, rows=()):
+        super().__init__(rows)
         self.conds = conds
 
 
@@ -236,9 +237,9 @@ class QREval:
 
         return call
 
-    def session(self):
+    def session(self, rows=()):
         s = Obj("Session", {})
-        s.attrs["@query"] = lambda s_, *a: Query()
+        s.attrs["@query"] = lambda s_, *a: Query((), rows)
         s.attrs["@add"] = lambda s_, *a: None
         s.attrs["@commit"] = lambda s_: None
         s.attrs["@rollback"] = lambda s_: None
@@ -251,13 +252,23 @@ class QREval:
         return ds
 
     # -- the two evaluations --------------------------------------------------------------------------
-    def stored(self, values: dict) -> dict:
-        """column -> value add_instance() sets on the row for a data set with `values`"""
+    def stored(self, values: dict, existing: dict | None = None) -> dict:
+        """column -> value add_instance() sets on the row for a data set with `values`; with `existing` the
+        database already holds a row for that SOP Instance UID (the update path)"""
         ds = self.dataset(values)
         ds.attrs["file_meta"] = Obj("FileMeta", {"TransferSyntaxUID": "1.2.840.10008.1.2"})
         self.made.clear()
         self.it.steps = 0
-        self.it.globals["add_instance"](ds, self.session(), "f.dcm")
+        rows = ()
+        if existing is not None:
+            row = Obj("Instance", {c: None for c in self.columns})
+            row.attrs.update(existing)
+            rows = (row,)
+        self.it.globals["add_instance"](ds, self.session(rows), "f.dcm")
+        if existing is not None:
+            if self.made:
+                raise Unsupported("add_instance created a second row for an instance that is already indexed")
+            return dict(rows[0].attrs)
         if len(self.made) != 1:
             raise Unsupported("add_instance did not create exactly one Instance row")
         return dict(self.made[0].attrs)
